@@ -988,6 +988,9 @@ class Engine:
         return self.ev(e.value, st, fr, cont)
 
     def getattr(self, v, attr, st, fr, k, node=None):
+        if isinstance(v, Exc):
+            # attributes of a caught exception object: uninterpreted functions of its identity
+            return k(Opq(z3.Function("attr_" + attr, V, V)(self.to_v(v))), st)
         if isinstance(v, Ref) and v.kind == "obj":
             cell = st.heap[v.base]
             if attr in cell:
@@ -1247,8 +1250,13 @@ class Engine:
 
     def ev_YieldFrom(self, e, st, fr, k):
         """``yield from <expr>``: the sub-generator's items are not tracked individually (the contract of the call
-        that builds it records what it stands for)."""
-        return self.ev(e.value, st, fr, lambda v, s: k(PNONE, s))
+        that builds it records what it stands for); it may end by raising what the contract lists in ``yield_from_raises``
+        (an exception of the sub-generator, or one thrown in by the consumer)."""
+        def cont(v, s):
+            for cls in getattr(self.cur, "yield_from_raises", None) or ():
+                fr.on_raise(Exc(cls, Opq(self.fresh("yf_exc_" + cls, "V"))), s)
+            return k(PNONE, s)
+        return self.ev(e.value, st, fr, cont)
 
     def ev_GeneratorExp(self, e, st, fr, k):
         return self.comprehension(e, st, fr, k, "gen")
@@ -1606,7 +1614,13 @@ class Engine:
             return self.ev(tgt.value, st, fr, lambda obj, s: self.setattr(obj, tgt.attr, v, s, fr, k, node))
         if isinstance(tgt, ast.Subscript) and self.cur is not None and dotted_name(tgt.value) in self.cur.store_hooks:
             h = self.cur.store_hooks[dotted_name(tgt.value)]
-            return self.ev(tgt.slice, st, fr, lambda key, s1: k(h(self, s1, key, v, node)))
+
+            def hooked(key, s1):
+                out = h(self, s1, key, v, node)
+                if isinstance(out, tuple) and out and out[0] == "raise":
+                    return fr.on_raise(out[1], out[2])       # the store itself raises (e.g. item assignment on a tuple)
+                return k(out)
+            return self.ev(tgt.slice, st, fr, hooked)
         if isinstance(tgt, ast.Subscript) and isinstance(tgt.value, (ast.Name, ast.Attribute)):
             # ``d[key] = v`` on a literal dict held by value: rebind the location to the updated dict
             def try_dict(base, s):
@@ -1625,6 +1639,9 @@ class Engine:
                 return try_dict(*probe[0])
         if isinstance(tgt, ast.Subscript):
             def cont(base, s):
+                if isinstance(base, tuple):
+                    # item assignment on a tuple: Python raises TypeError
+                    return fr.on_raise(Exc("TypeError", origin="stmt"), s)
                 if isinstance(tgt.slice, ast.Slice):
                     def got(vals, s2):
                         return self.store_slice(base, vals[0], vals[1], v, s2, k, node)
@@ -1814,6 +1831,10 @@ class Engine:
             name = dotted_name(exc.func)
             if name is None:
                 raise Unsupported("raise of computed exception")
+            if name.endswith(".with_traceback") and name.split(".")[0] in st.env:
+                # ``raise exc.with_traceback(tb)``: the same exception object
+                return self.ev(exc.func.value, st, fr,
+                               lambda v, s1: fr.on_raise(v if isinstance(v, Exc) else Exc("Any", v, origin="stmt"), s1))
             if name.split(".")[-1] not in EXC_PARENT and name.split(".")[0] in st.env:
                 # ``raise obj.method()``: the raised object is the value of the call
                 return self.ev(exc, st, fr, lambda v, s1: fr.on_raise(v if isinstance(v, Exc) else Exc("Any", v, origin="stmt"), s1))
